@@ -44,6 +44,8 @@ def run_property(prop, tier, repo=None):
           break
         patched[name] = getattr(mod, name)
         setattr(mod, name, lambda *a, **k: None)
+    if run is not None:
+      errors.extend(run.errors)
     for (name, msg) in errors:
       print("ANALYSIS-ERROR property=%s %s%s" % (prop, ("[%s] " % name) if name else "", msg))
     if run is None:
